@@ -42,18 +42,23 @@ Definition enum_has_sig (s : list N) : outcome bool := Ok (starts_with c_v s).
 (* ctx.buf[pos] = x *)
 Definition set_byte (pos x : N) (buf : list N) : list N := firstnN pos buf ++ [x] ++ skipnN (pos + 1) buf.
 
-(* variant_marshal: one match arm per case *)
+(* variant_marshal: one match arm per case (after fix dec59e1: a case signature of more than 255 bytes is refused) *)
 Definition derive_case_marshal (be : bool) (k : ecase) (p : epay) (c : mctx) : mres :=
   match k, p with
   | CSingle r, PSingle v =>
-      (* sig_str; util::write_signature(sig_str, buf) - no length check, the length byte is `as u8`; val.marshal(ctx) *)
-      marshal_t be v {| mbuf := write_signature (sig_str_r r) (mbuf c); mfds := mfds c |}
+      (* sig_str; if sig_str.len() > 255 { return Err(SignatureTooLong) }; util::write_signature(sig_str, buf); val.marshal(ctx) *)
+      if 255 <? len (sig_str_r r) then (c, false)
+      else marshal_t be v {| mbuf := write_signature (sig_str_r r) (mbuf c); mfds := mfds c |}
   | CFields _ rs, PFields vs =>
       (* let pos = buf.len(); push(0); push('('); each field's sig_str; push(')'); push(0);
-         buf[pos] = (buf.len() - pos - 2) as u8; ctx.align_to(8); each field .marshal(ctx)? *)
+         let sig_len = buf.len() - pos - 2;
+         if sig_len > 255 { buf.truncate(pos); return Err(SignatureTooLong) }
+         buf[pos] = sig_len as u8; ctx.align_to(8); each field .marshal(ctx)? *)
       let pos := len (mbuf c) in
       let b1 := mbuf c ++ [0] ++ [c_lpar] ++ flat_map sig_str_r rs ++ [c_rpar] ++ [0] in
-      let b2 := set_byte pos ((len b1 - pos - 2) mod 256) b1 in
+      let sig_len := len b1 - pos - 2 in
+      if 255 <? sig_len then ({| mbuf := firstnN pos b1; mfds := mfds c |}, false) else
+      let b2 := set_byte pos (sig_len mod 256) b1 in
       derive_struct_marshal (map (marshal_t be) vs) {| mbuf := b2; mfds := mfds c |}
   | _, _ => (c, false)          (* not a value of the enum: cannot be written in Rust *)
   end.
@@ -128,9 +133,9 @@ Definition sig_macro_unmarshal (vf : nat) (be : bool) (cs : list rty) (c : uctx)
              sub_context(val_bytes) (which advances), leave_container;  Ok(Self::Catchall(sig)) *)
           let c1 := snd r in
           do c2 <- u_enter c1;
-          do n <- validate 66 be (udepth c2) (uoff c1) (ubuf c1) t;
-          do s <- u_sub n c1;
-          Ok (ECatchSig t, snd s)
+          do n <- validate 66 be (udepth c2) (uoff c2) (ubuf c2) t;
+          do s <- u_sub n c2;
+          Ok (ECatchSig t, u_leave (snd s))
       end
   | _ => Err                                             (* Err(WrongSignature) *)
   end.
@@ -156,10 +161,11 @@ Definition var_macro_unmarshal (vf : nat) (be : bool) (cs : list rty) (c : uctx)
       match parse_description (fst r) with
       | Ok [t] =>
           do c1 <- u_align (align t) (snd r);
+          (* sub_context_for_value: the sub-context is split off while the depth is raised, so it carries depth + 1 *)
           do c2 <- u_enter c1;
-          do n <- validate 66 be (udepth c2) (uoff c1) (ubuf c1) t;
-          do s <- u_sub n c1;
-          Ok (ECatchVar t (fst s), snd s)
+          do n <- validate 66 be (udepth c2) (uoff c2) (ubuf c2) t;
+          do s <- u_sub n c2;
+          Ok (ECatchVar t (fst s), u_leave (snd s))
       | _ => Err
       end
   end.
